@@ -21,6 +21,11 @@ def stores_stage(c):
   seqs.append([{'op': 'createTrial', 'k': ['o', 's'], 'trial': t0}, {'op': 'createStudy', 'k': ['o', 's'], 'head': {'state': 'ACTIVE', 'spec': 0, 'md': []}},
                {'op': 'listTrials', 'k': ['o', 's']}])
   guarded.append(False)
+  # the witnesses of c07_es_unguarded_counterexamples: SQL inserts an early-stopping operation of a missing study; RAM's update upserts
+  e0 = {'trial': 1, 'active': True, 'stop': False}
+  seqs.append([{'op': 'createEs', 'k': ['o', 's'], 'es': e0}, {'op': 'createStudy', 'k': ['o', 't'], 'head': {'state': 'ACTIVE', 'spec': 0, 'md': []}},
+               {'op': 'updateEs', 'k': ['o', 't'], 'es': e0}, {'op': 'getEs', 'k': ['o', 't'], 'id': 1}])
+  guarded.append(False)
   for i in range(n):
     g = stores.Gen(c.rng, guarded=(i % 3 != 0))
     seqs.append(g.sequence(c.rng.randrange(5, 45)))
@@ -52,7 +57,11 @@ def stores_stage(c):
   w_ram, w_sql = stores.run_real('ram', seqs[0]), stores.run_real('sql', seqs[0])
   c.flags['sqlCreateTrialChecksStudy'] = (w_sql[0] != 'ok')
   c.flags['ramCreateTrialChecksStudy'] = (w_ram[0] != 'ok')
-  c.sample({'store_sequence': seqs[1][:12], 'ram': models[1]['ram'][:12]})
+  e_ram, e_sql = stores.run_real('ram', seqs[1]), stores.run_real('sql', seqs[1])
+  c.flags['sqlCreateEsChecksStudy'] = (e_sql[0] != 'ok')
+  c.flags['ramUpdateEsUpserts'] = (e_ram[2] == 'ok')
+  c.flags['sqlUpdateEsUpserts'] = (e_sql[2] == 'ok')
+  c.sample({'store_sequence': seqs[2][:12], 'ram': models[2]['ram'][:12]})
 
 
 def run(c):
